@@ -40,6 +40,76 @@ Theorem C01_matching : forall M ops,
 Proof. exact model_matching. Qed.
 Print Assumptions C01_matching.
 
+(* THE VALUE the callback receives.  For every history under the guard: a callback other than
+   the timeout / NoService one is handed exactly [decode (wire_of k)] - the decoding done by
+   handleResponse of the fields of the response k that completed it, k being the first response
+   with the request's id since its issue; and no callback is ever handed an (err, msg) pair
+   outside the shapes of [cls] (an error together with a message, a foreign message type).
+   The same two clauses follow from acceptance of an arbitrary (implementation) trace. *)
+Theorem C01_value_exact : forall M ops,
+  1 <= M -> noclash (trace_g M ops) ->
+  value_exact (trace_g M ops) /\ values_wellformed (trace_g M ops).
+Proof. exact model_value. Qed.
+Print Assumptions C01_value_exact.
+
+Theorem C01_acceptor_value : forall tr,
+  accepts tr = true -> value_exact tr /\ values_wellformed tr.
+Proof. exact accepts_value. Qed.
+Print Assumptions C01_acceptor_value.
+
+(* what that decoding is, exactly, for every combination of response fields: a remote error iff
+   the error code is set (with the response's error text and NO message, whatever type / body
+   travel with it); nil iff no error code and no type name - so NEVER for a typed response,
+   however short its body; a reply value iff the type is known and the body well-formed, and
+   then the value encoded by the body (the empty body [BFields 0 0] is the all-default message);
+   a local decode error iff the type name is unknown (no message) or the body is junk (with the
+   partially filled message proto.Unmarshal leaves behind); nothing else *)
+Theorem C01_decode_exact : forall c e t b,
+  (forall x, decode (Wire c e t b) = RErr x <-> c <> 0 /\ x = e) /\
+  (decode (Wire c e t b) = RNil <-> c = 0 /\ t = TyNone) /\
+  (forall v, decode (Wire c e t b) = RReply v <->
+     c = 0 /\ ((t = TyHello /\ exists i s, b = BFields i s /\ v = VHello i s) \/
+               (t = TyEmpty /\ b <> BJunk /\ v = VEmpty))) /\
+  (forall p, decode (Wire c e t b) = RBad p <->
+     c = 0 /\ ((p = false /\ t = TyUnknown) \/
+               (p = true /\ b = BJunk /\ (t = TyHello \/ t = TyEmpty)))) /\
+  decode (Wire c e t b) <> RTimeout /\ decode (Wire c e t b) <> RNoService /\
+  decode (Wire c e t b) <> ROther.
+Proof. exact decode_exact. Qed.
+Print Assumptions C01_decode_exact.
+
+(* end to end through ResponseEx and handleResponse: what the peer hands to Service.Response is
+   what the callback receives - the message itself (a typed nil pointer arrives as the zero
+   message), nil for nil, and with an error code the error text alone *)
+Theorem C01_value_roundtrip : forall code info m,
+  cls_of (KAns code info m) =
+  if code =? 0
+  then match m with
+       | MNil => RNil
+       | MTypedNil => RReply (VHello 0 0)
+       | MHello i s => RReply (VHello i s)
+       | MEmpty => RReply VEmpty
+       end
+  else RErr info.
+Proof. exact roundtrip. Qed.
+Print Assumptions C01_value_roundtrip.
+
+(* the boundaries spelled out: all-default message, typed nil, empty message type, typed
+   response with an empty body, unknown type with any body, body without a type, error code
+   with any type / body / message *)
+Theorem C01_value_boundaries :
+  cls_of (KAns 0 0 (MHello 0 0)) = RReply (VHello 0 0) /\
+  cls_of (KAns 0 0 MTypedNil) = RReply (VHello 0 0) /\
+  cls_of (KAns 0 0 MEmpty) = RReply VEmpty /\
+  cls_of (KAns 0 0 MNil) = RNil /\
+  (forall e, cls_of (KRaw (Wire 0 e TyHello (BFields 0 0))) = RReply (VHello 0 0)) /\
+  (forall e b, cls_of (KRaw (Wire 0 e TyUnknown b)) = RBad false) /\
+  (forall e b, cls_of (KRaw (Wire 0 e TyNone b)) = RNil) /\
+  (forall c e t b, c <> 0 -> cls_of (KRaw (Wire c e t b)) = RErr e) /\
+  (forall c e m, c <> 0 -> cls_of (KAns c e m) = RErr e).
+Proof. exact value_boundaries. Qed.
+Print Assumptions C01_value_boundaries.
+
 Theorem C01_issue_unique : forall M ops,
   1 <= M -> noclash (trace_g M ops) -> issue_unique (trace_g M ops).
 Proof. exact model_issue_unique. Qed.
@@ -204,7 +274,8 @@ Print Assumptions C01_agree_model.
 Definition ex_ops : list op :=
   [SetNext 2147483631; Via 2;
    Do (AReq [AReq []; ANotify; ANoRoute [AUnser []]; ANotifyNR]); Do (AReq []); Do ANotify; DirectNotify 0;
-   Resp 2147483632 (KOk 7); Resp 2147483632 KNil; Resp 9 (KErr 1); Resp 1 (KBad 0);
+   Resp 2147483632 (KAns 0 0 (MHello 0 0)); Resp 2147483632 (KAns 0 0 MNil); Resp 9 (KAns 999 1 MNil);
+   Resp 1 (KRaw (Wire 0 0 TyUnknown (BFields 0 0)));
    Advance 30000; Tick []; Advance 1; Tick [4]; Advance 30000; Tick []; Tick []].
 
 (* the guard holds on it, it is accepted, it wraps, completes everything and drains *)
@@ -218,11 +289,11 @@ Example C01_example_trace :
    EDo; EIssue 1 1 1000000; ESent 1 1;
    EDo; ESent 0 (-1);
    EIdle;
-   EResp 2147483632 (KOk 7); ECb 0 (RReply 7); EIssue 2 2 1000000; ESent 2 2; ESent 0 (-1);
+   EResp 2147483632 (KAns 0 0 (MHello 0 0)); ECb 0 (RReply (VHello 0 0)); EIssue 2 2 1000000; ESent 2 2; ESent 0 (-1);
      ENoRoute 3; ECb 3 RNoService; EIssue 4 3 1000000;
-   EResp 2147483632 KNil; EDrop 2147483632;
-   EResp 9 (KErr 1); EDrop 9;
-   EResp 1 (KBad 0); ECb 1 RBad;
+   EResp 2147483632 (KAns 0 0 MNil); EDrop 2147483632;
+   EResp 9 (KAns 999 1 MNil); EDrop 9;
+   EResp 1 (KRaw (Wire 0 0 TyUnknown (BFields 0 0))); ECb 1 (RBad false);
    EIdle; ETick 1030000;
    EIdle; ETick 1030001; ECb 4 RTimeout; ECb 2 RTimeout;
    EIdle; ETick 1060001; EIdle].
